@@ -1,8 +1,10 @@
 package main
 
 import (
+	"bufio"
 	"context"
 	"fmt"
+	"math/rand"
 	"os"
 	"os/exec"
 	"runtime"
@@ -472,3 +474,82 @@ func evalInChild(line string) string {
 }
 
 func fmtDur(d time.Duration) string { return fmt.Sprint(d.Milliseconds()) }
+
+// stdinlines <seed> <count>: the way the bundled programs receive their commands (engine.ReadStdinLines on os.Stdin): every
+// line written arrives as ONE line, unchanged and in order - also a `position ... moves ...` of a long game, which runs to
+// several kilobytes. (bufio.Scanner's own limit of 64 KiB per line is not approached.) Evaluated in a child process, whose
+// stdin is replaced by a pipe.
+func init() {
+	childOps["stdinlines"] = true
+	registerEval("stdinlines", func(a []string) string {
+		seed, _ := strconv.ParseInt(a[0], 10, 64)
+		n, _ := strconv.Atoi(a[1])
+		r := rand.New(rand.NewSource(seed))
+		pr, pw, err := os.Pipe()
+		if err != nil {
+			return "HARNESS pipe"
+		}
+		os.Stdin = pr
+		ctx, cancel := context.WithCancel(context.Background())
+		defer cancel()
+		in := engine.ReadStdinLines(ctx)
+		var sent []string
+		for i := 0; i < n; i++ {
+			plies := []int{0, 3, 40, 200, 700, 813, 814, 815, 816, 820, 831, 1200, 1638, 1639, 1640, 3000, 6000}[r.Intn(17)]
+			if r.Intn(3) == 0 {
+				plies = r.Intn(7000)
+			}
+			var sb strings.Builder
+			sb.WriteString("position startpos")
+			if plies > 0 {
+				sb.WriteString(" moves")
+			}
+			for k := 0; k < plies; k++ {
+				sb.WriteByte(' ')
+				sb.WriteByte(byte('a' + r.Intn(8)))
+				sb.WriteByte(byte('1' + r.Intn(8)))
+				sb.WriteByte(byte('a' + r.Intn(8)))
+				sb.WriteByte(byte('1' + r.Intn(8)))
+			}
+			sent = append(sent, sb.String(), "go depth 1")
+		}
+		go func() {
+			w := bufio.NewWriter(pw)
+			for _, l := range sent {
+				w.WriteString(l)
+				w.WriteByte('\n')
+			}
+			w.Flush()
+			pw.Close()
+		}()
+		var got []string
+		deadline := time.After(60 * time.Second * loadScale())
+	loop:
+		for {
+			select {
+			case l, ok := <-in:
+				if !ok {
+					break loop
+				}
+				got = append(got, l)
+				if len(got) > len(sent)+64 {
+					break loop
+				}
+			case <-deadline:
+				return fmt.Sprintf("MISMATCH %d of %d lines arrived, then nothing for a minute", len(got), len(sent))
+			}
+		}
+		for i := range sent {
+			if i >= len(got) {
+				return fmt.Sprintf("MISMATCH %d lines sent, %d arrived", len(sent), len(got))
+			}
+			if got[i] != sent[i] {
+				return fmt.Sprintf("MISMATCH line %d, sent with %d bytes, arrived as a line of %d bytes", i, len(sent[i]), len(got[i]))
+			}
+		}
+		if len(got) != len(sent) {
+			return fmt.Sprintf("MISMATCH %d lines sent, %d arrived", len(sent), len(got))
+		}
+		return "ok"
+	})
+}
